@@ -66,6 +66,7 @@ def run_check(prop, repo_dir):
         env.update(QUICK_ENV[prop])
     env["VERIF_REPO"] = repo_dir
     env["VERIF_SENSITIVITY"] = "1"
+    env["VERIF_OUT"] = os.path.join(os.path.dirname(repo_dir), "verif-out")
     p = subprocess.run([os.path.join(VERIF, "check"), prop, "quick"], env=env, capture_output=True, text=True, timeout=3000)
     viol = [l for l in p.stdout.splitlines() if l.startswith("VIOLATION")]
     detail = [l.strip()[:260] for l in p.stdout.splitlines() if l.startswith("  violation:")]
